@@ -1129,9 +1129,7 @@ func (p *pipe) Do(ctx context.Context, cmd Completed) (resp RedisResult) {
 		resp = NewErrorResult(p.Error())
 	}
 
-	if left := p.decrWaitsAndIncrRecvs(); state == 0 && left != 0 {
-		p.background()
-	}
+	p.leaveSync(state)
 	return resp
 
 queue:
@@ -1239,9 +1237,7 @@ func (p *pipe) DoMulti(ctx context.Context, multi ...Completed) *redisresults {
 			resp.s[i] = err
 		}
 	}
-	if left := p.decrWaitsAndIncrRecvs(); state == 0 && left != 0 {
-		p.background()
-	}
+	p.leaveSync(state)
 	return resp
 
 queue:
@@ -1876,6 +1872,35 @@ func (p *pipe) decrWaits() uint32 {
 func (p *pipe) decrWaitsAndIncrRecvs() uint32 {
 	newValue := p.wrCounter.Add(decrLoIncrHi)
 	return uint32(newValue)
+}
+
+// decrWaitsAndIncrRecvsIfLast does what decrWaitsAndIncrRecvs does, but only if the caller is the last one counted.
+func (p *pipe) decrWaitsAndIncrRecvsIfLast() bool {
+	for {
+		v := p.wrCounter.Load()
+		if uint32(v) != 1 {
+			return false
+		}
+		if p.wrCounter.CompareAndSwap(v, v+decrLoIncrHi) {
+			return true
+		}
+	}
+}
+
+// leaveSync ends a Do or DoMulti that did not go through the queue; state is what the caller loaded after incrWaits.
+// A caller that used the connection synchronously (state == 0) and finds others queued behind it starts the
+// background workers for them. It must do so while it is still counted in waits: if it released its count first,
+// the queued callers could all give up before background() is reached (the flow buffer's PutOne and PutMulti return
+// on a done context), and a newcomer would then see waits == 1 and state == 0 and use the connection synchronously
+// at the very moment the background workers start on it.
+func (p *pipe) leaveSync(state int32) {
+	if state == 0 && p.queue != nil {
+		if p.decrWaitsAndIncrRecvsIfLast() {
+			return
+		}
+		p.background()
+	}
+	p.decrWaitsAndIncrRecvs()
 }
 
 // loadRecvs loads the upper 32 bits (recvs).
